@@ -53,7 +53,20 @@ class Check:
         env = dict(os.environ, **GOENV)
         hdir = os.path.join(VERIF, "harness")
         gosum = os.path.join(hdir, "go.sum")
-        shutil.copy(os.path.join(REPO, "go.sum"), gosum)   # always the repository's own sums
+        # always the repository's own sums; replaced atomically and only when they differ, because
+        # several checks may be building side by side
+        with open(os.path.join(REPO, "go.sum"), "rb") as f:
+            want = f.read()
+        try:
+            with open(gosum, "rb") as f:
+                have = f.read()
+        except OSError:
+            have = None
+        if have != want:
+            tmp = "%s.%d.tmp" % (gosum, os.getpid())
+            with open(tmp, "wb") as f:
+                f.write(want)
+            os.replace(tmp, gosum)
         outbin = os.path.join(self.scratch, name)
         cmd = ["go", "build", "-tags", "verif", "-o", outbin]
         if REPO != "/repo":
